@@ -616,6 +616,7 @@ func (r *Raft) AddServer(
 
 	r.configuration = &configuration
 	r.followers[id] = &follower{nextIndex: 1}
+	r.configurationResponseCh = configurationFuture.responseCh
 
 	r.sendAppendEntriesToPeers()
 
@@ -676,6 +677,7 @@ func (r *Raft) RemoveServer(id string, timeout time.Duration) Future[Configurati
 
 	// Add the configuration to the log.
 	r.appendConfiguration(&configuration)
+	r.configurationResponseCh = configurationFuture.responseCh
 
 	r.sendAppendEntriesToPeers()
 
@@ -1783,6 +1785,7 @@ func (r *Raft) applyLoop() {
 			case ConfigurationEntry:
 				r.applyConfiguration(entry.Data)
 				respond(r.configurationResponseCh, *r.configuration, nil)
+				r.configurationResponseCh = nil
 			case OperationEntry:
 				responseCh := r.operationManager.pendingReplicated[entry.Index]
 				delete(r.operationManager.pendingReplicated, entry.Index)
@@ -1935,6 +1938,8 @@ func (r *Raft) becomeFollower(leaderID string, term uint64) {
 	r.resetSnapshotFiles()
 
 	// Cancel any pending operations.
+	respond(r.configurationResponseCh, Configuration{}, ErrNotLeader)
+	r.configurationResponseCh = nil
 	r.operationManager.notifyLostLeaderShip(r.id, r.leaderID)
 	r.operationManager = newOperationManager(r.options.leaseDuration)
 
@@ -1948,6 +1953,8 @@ func (r *Raft) stepdown() {
 	r.state = Follower
 
 	// Cancel any pending operations.
+	respond(r.configurationResponseCh, Configuration{}, ErrNotLeader)
+	r.configurationResponseCh = nil
 	r.operationManager.notifyLostLeaderShip(r.id, r.leaderID)
 	r.operationManager = newOperationManager(r.options.leaseDuration)
 
